@@ -563,6 +563,17 @@ def run_case(spec, j):
   # (sequential re-execution; compared until a decision is too close to call)
   ref = _reference_cycles(A0, S, Dn, t, p['max_iter'], p['max_proj'],
                           p['tol'])
+  # the same re-execution from a start perturbed at the 1e-13 level: where
+  # the two reference runs have drifted apart by more than 1e-9 the
+  # trajectory amplifies rounding errors by more than four orders of
+  # magnitude and a third run (the library's) cannot be expected to agree
+  # to 1e-6 any more (thorough sweep, seed 1: 1.6e-5 at cycle 46 of a
+  # two-dimensional run)
+  rp_ = rng_for('c14-perturb', spec['ds']['seed'])
+  Ep = rp_.randn(d, d)
+  A0p = A0 * (1.0 + 1e-13 * (Ep + Ep.T) / 2)
+  ref_p = _reference_cycles(A0p, S, Dn, t, p['max_iter'], p['max_proj'],
+                            p['tol'])
   okc, whyc, ncmp = True, None, 0
   for c, rc in enumerate(ref):
     if 2 * c + 1 >= len(trace):
@@ -570,6 +581,10 @@ def run_case(spec, j):
     cand = trace[2 * c + 1][0]
     sc = max(np.abs(rc['cand']).max(), 1e-300)
     if rc['close']:
+      break
+    if c >= len(ref_p) or \
+            np.abs(ref_p[c]['cand'] - rc['cand']).max() > 1e-9 * sc:
+      j.count('candidates.rounding-amplifying-trajectory(stop)')
       break
     if rc['noisy']:
       # the step that led to this candidate used weights at the noise level
